@@ -1244,6 +1244,30 @@ Proof.
   split; [reflexivity|]. unfold alias_getitem. simpl. rewrite M, A. discriminate.
 Qed.
 
+(* `name in m` (fix 0f38318): for an alias, membership of the variable it names; for any other name, the plain object's answer;
+   and it agrees with item access: `n in m` iff m[n] does not raise KeyError (on an object satisfying the invariant) *)
+Theorem alias_contains am n s :
+  snd (alias_read am (QContains n) s) = snd (read (QContains (resolve am n)) s) /\
+  (~ In n (akeys (amap am)) -> snd (alias_read am (QContains n) s) = snd (read (QContains n) s)).
+Proof.
+  split; [reflexivity|]. intros H. simpl. unfold resolve. rewrite (aget_nonkey _ _ H). reflexivity.
+Qed.
+
+Theorem alias_contains_same_target am n1 n2 s :
+  resolve am n1 = resolve am n2 -> snd (alias_read am (QContains n1) s) = snd (alias_read am (QContains n2) s).
+Proof. intros E. simpl. rewrite E. reflexivity. Qed.
+
+Theorem alias_member_is_readable am n s :
+  Inv s -> snd (alias_read am (QContains n) s) = Ret (VBool true) -> alias_getitem am (KName n) s <> Raise KeyError.
+Proof.
+  intros I H. simpl in H. inversion H as [M]. apply mem_In in M.
+  assert (Hin : In (resolve am n) (index s)).
+  { pose proof (row_names_incl s I) as RI. apply RI. exact M. }
+  unfold alias_getitem. simpl. rewrite (proj2 (mem_In _ _) Hin).
+  destruct (assoc (resolve am n) (vars s)) as [v|] eqn:A; [discriminate|].
+  exfalso. exact (proj1 (proj2 (proj1 I)) _ Hin A).
+Qed.
+
 Theorem alias_dir am s :
   snd (alias_read am QDir s) =
     match snd (read QDir s) with Ret (VNames l) => Ret (VNames (l ++ akeys (amap am))) | r => r end.
